@@ -72,6 +72,7 @@ type Result struct {
 	Mismatch   bool              `json:"hash_mismatch,omitempty"`
 	Interleaved bool             `json:"interleaved,omitempty"`
 	Points     []string          `json:"points,omitempty"`
+	Spawns     map[string]int    `json:"spawns,omitempty"`
 }
 
 var traceN int
@@ -155,6 +156,7 @@ func runPlan(t *testing.T, sc *Scenario, plan *Plan, ch *simrt.Choices) (res Res
 	res.Probes = w.Probes
 	res.Faults = w.Net.Faults
 	res.Points = w.Points
+	res.Spawns = run.Sites
 	return
 }
 
